@@ -1406,3 +1406,138 @@ Proof.
         apply Hvs in Hi. rewrite Hsp2 in Hi. rewrite <- Hi. f_equal. lia.
     + constructor; [|exact Vvs]. eapply vrep_ext; [exact V1|]. apply cext_ext. eapply cext_trans; eassumption.
 Qed.
+
+Lemma list_get_lt {A} (l : list A) i v : list_get l i = Some v -> i < len l.
+Proof.
+  unfold list_get, len. intros H. assert (nth_error l (N.to_nat i) <> None) by congruence.
+  apply nth_error_Some in H0. lia.
+Qed.
+
+Lemma cext_heap s h' : hext (hp s) h' -> cext s (with_heap s h').
+Proof. intros H. constructor; cbn [hp st g_bind g_slots with_heap]; auto using sext_refl. lia. Qed.
+
+Lemma cok_app f0 args : (forall b, builtin_ok b) -> wf_expr (EApp f0 args) ->
+  compile_ok f0 -> Forall compile_ok args -> compile_ok (EApp f0 args).
+Proof.
+  intros Hb Hwf IHf IHargs f l tail s Hf Ht MI. destruct f as [|f]; [lia|].
+  apply wf_app in Hwf as (Hsp & _ & _).
+  cbn [cell_of] in *. fold (cells_of args) in *. cbn [cell_size] in Hf.
+  rewrite compile_application_eq by exact Hsp.
+  destruct (args_ok args IHargs f l 0 s ltac:(lia) Ht MI) as (l1 & s1 & ca & E1 & F1 & S1 & MI1 & X1 & EX1).
+  rewrite N.add_0_l in E1.
+  set (l2 := emit (emit_op l1 OPushImmediate) (VArgc (len args))).
+  assert (S2 : same_hdr l l2) by (eapply same_hdr_trans; [exact S1|repeat split]).
+  destruct (IHf f l2 false s1 ltac:(lia) (top_hdr_same _ _ S2 Ht) MI1) as (l3 & s2 & cf & E3 & F3 & S3 & MI2 & X2 & EX3).
+  set (callop := VOp (if tail then OTCallAcc else OCallAcc)).
+  exists (emit_op l3 (if tail then OTCallAcc else OCallAcc)), s2,
+         (ca ++ [VOp OPushImmediate; VArgc (len args)] ++ cf ++ [callop]).
+  unfold bindM at 1. rewrite E1. cbv beta iota. unfold bindM at 1. fold l2. rewrite E3.
+  split; [reflexivity|].
+  split; [rewrite fwd_emit_op, F3; unfold l2; rewrite fwd_emit, fwd_emit_op, F1, <- !app_assoc; reflexivity|].
+  split; [eapply same_hdr_trans; [exact S2|]; eapply same_hdr_trans; [exact S3|repeat split]|].
+  split; [exact MI2|]. split; [eapply cext_trans; eassumption|].
+  set (p := len (fwd l)) in *.
+  assert (L2 : len (fwd l2) = p + len ca + 2) by (unfold l2; rewrite fwd_emit, fwd_emit_op, F1; lens; fold p; lia).
+  rewrite L2 in EX3.
+  intros rho r rho' HR. inversion HR; subst.
+  match goal with H : ref_evals rho args _ _ |- _ => rename H into HRa end.
+  match goal with H : ref_eval _ f0 _ _ |- _ => rename H into HRf end.
+  match goal with H : bsem _ _ = Some r |- _ => rename H into Hsem end.
+  intros m lp bc X MIm Hc Hs Hip G.
+  apply seg_app in Hs as [Hsa Hs]. apply seg_app in Hs as [Hsi Hs]. rewrite len2 in Hs.
+  apply seg_app in Hs as [Hsf Hsc].
+  (* operands *)
+  destruct (EX1 _ _ _ HRa m lp bc (cext_trans _ _ _ X2 X) MIm Hc Hsa Hip G)
+    as (n1 & m1 & vs & St1 & MIm1 & Hip1 & G1 & Xm1 & Hsp1 & Hbp1 & Hep1 & Hlog1 & Hst1 & Hlen & Hvs & Vvs).
+  pose proof (code_in_ext _ _ _ _ Hc Xm1) as Hc1.
+  (* PUSH Argc n *)
+  pose proof (step_pushimm ob m1 lp _ bc _ Hc1 Hip1 Hsi ltac:(discriminate)) as Ei.
+  set (m2 := pushed (with_ip m1 (lp, p + len ca + 2)) (VArgc (len args))) in *.
+  assert (Xm12 : cext m1 m2) by (apply cext_same; try reflexivity; lia).
+  assert (MIm2 : minv m2).
+  { destruct MIm1 as [HI GI SP]. constructor; [exact HI|exact GI|]. apply pushed_sp_lt. exact SP. }
+  assert (Hc2 : code_in m2 lp bc) by (eapply code_in_regs; [| |exact Hc1]; reflexivity).
+  assert (G2 : genv_rel rho1 m2) by (eapply genv_rel_ext; [exact Xm12|reflexivity|exact G1]).
+  assert (Xs2m2 : cext s2 m2) by (eapply cext_trans; [exact X|]; eapply cext_trans; eassumption).
+  assert (Hsp2 : sp m2 = sp m + len args + 1) by (cbn [sp m2 pushed with_scap with_stack with_ip]; rewrite Hsp1; reflexivity).
+  (* operator *)
+  destruct (EX3 _ _ _ HRf m2 lp bc Xs2m2 MIm2 Hc2 Hsf eq_refl G2)
+    as (n3 & m3 & St3 & Fr3 & MIm3 & Hip3 & V3 & G3).
+  pose proof (code_in_ext _ _ _ _ Hc2 (fr_ext _ _ Fr3)) as Hc3.
+  destruct V3 as (pb & Hacc3 & Ab & Cb).
+  assert (Hd3 : heap_deref (hp m3) (acc m3) = Ok (VBuiltin b)).
+  { rewrite Hacc3. cbn [heap_deref]. rewrite (heap_get_alloc _ _ Ab), Cb. reflexivity. }
+  set (q := p + len ca + 2 + len cf) in *.
+  set (m3' := with_ip m3 (lp, q + 1)).
+  assert (SM3 : same_mem m3 m3') by (repeat split).
+  pose proof (same_mem_minv _ _ SM3 MIm3) as MIm3'.
+  assert (Hsp3 : sp m3' = sp m + len vs + 1) by (cbn [sp m3' with_ip]; rewrite (fr_sp _ _ Fr3), Hsp2, Hlen; reflexivity).
+  assert (Hm23 : forall j, j <= sp m2 -> sget m3' j = sget m2 j) by (intros j Hj; apply (fr_stack _ _ Fr3); exact Hj).
+  assert (Htop : sget m3' (sp m3') = VArgc (len vs)).
+  { rewrite Hsp3, Hm23 by (rewrite Hsp2, Hlen; lia). rewrite Hlen, <- Hsp1. unfold m2.
+    change (sp m1) with (sp (with_ip m1 (lp, p + len ca + 2))). apply sget_pushed_top. }
+  assert (Hargs : forall i v, list_get vs i = Some v -> sget m3' (sp m + 1 + i) = v).
+  { intros i v Hi. pose proof (list_get_lt _ _ _ Hi) as Hlt. rewrite Hm23 by (rewrite Hsp2, <- Hlen; lia).
+    unfold m2. rewrite sget_pushed_other by (cbn [sp with_ip]; rewrite Hsp1, <- Hlen; lia).
+    change (sget (with_ip m1 _) (sp m + 1 + i)) with (sget m1 (sp m + 1 + i)). apply Hvs. exact Hi. }
+  assert (Vvs3 : Forall2 (fun v r => vrep v r (hp m3') (st m3')) vs rs).
+  { clear -Vvs Xm12 Fr3. induction Vvs as [|v0 r0 vs0 rs0 V0 _ IHV]; constructor; [|exact IHV].
+    eapply vrep_ext; [exact V0|]. apply (cext_ext m1 m3). eapply cext_trans; [exact Xm12|apply Fr3]. }
+  destruct (Hb b m3' (sp m) vs rs r MIm3' Hsp3 Htop Hargs Vvs3 Hsem)
+    as (v & m4 & Hrun & MIm4 & Xm34 & V4 & Hsp4 & Hst4 & Hbp4 & Hep4 & Hip4 & Hg4 & Hlog4).
+  destruct (match v with VPtr _ => (v, hp m4) | _ => heap_maybe_put (hp m4) v end) as [v' h'] eqn:Ebox.
+  destruct (vrep_box _ _ _ _ _ _ (mi_heap _ MIm4) V4 Ebox) as (HI5 & Hx5 & V5).
+  pose proof (step_call_builtin ob m3 lp q bc tail b v m4 v' h' Hc3 Hip3 Hsc Hd3 Hrun Ebox) as Ec.
+  set (m5 := with_acc (with_heap m4 h') v') in *.
+  assert (Xm45 : cext m4 m5).
+  { eapply cext_trans; [apply (cext_heap m4 h' Hx5)|]. apply cext_same; try reflexivity; cbn [g_slots with_acc with_heap]; lia. }
+  assert (Xm35 : cext m3 m5).
+  { eapply cext_trans; [apply (fr_ext _ _ (same_mem_frame _ _ SM3))|]. eapply cext_trans; eassumption. }
+  exists (n1 + 1 + n3 + 1)%nat, m5.
+  split; [eapply steps_trans; [eapply steps_trans; [eapply steps_trans; [exact St1|apply steps_one; exact Ei]|exact St3]|apply steps_one; exact Ec]|].
+  split.
+  { constructor.
+    - eapply cext_trans; [exact Xm1|]. eapply cext_trans; [exact Xm12|]. eapply cext_trans; [apply Fr3|exact Xm35].
+    - exact Hsp4.
+    - change (bp m5) with (bp m4). rewrite Hbp4. change (bp m3') with (bp m3). rewrite (fr_bp _ _ Fr3). exact Hbp1.
+    - change (ep m5) with (ep m4). rewrite Hep4. change (ep m3') with (ep m3). rewrite (fr_ep _ _ Fr3). exact Hep1.
+    - change (out_log m5) with (out_log m4). rewrite Hlog4. change (out_log m3') with (out_log m3).
+      rewrite (fr_log _ _ Fr3). exact Hlog1.
+    - intros j Hj. change (sget m5 j) with (sget m4 j). rewrite Hst4 by exact Hj.
+      rewrite Hm23 by (rewrite Hsp2; lia). unfold m2.
+      rewrite sget_pushed_other by (cbn [sp with_ip]; rewrite Hsp1; lia).
+      change (sget (with_ip m1 _) j) with (sget m1 j). apply Hst1. exact Hj. }
+  split.
+  { destruct MIm4 as [HI4 GI4 SP4]. constructor; [exact HI5|exact GI4|exact SP4]. }
+  split.
+  { change (ip m5) with (ip m4). rewrite Hip4. cbn [ip m3' with_ip]. f_equal. unfold q. lens. lia. }
+  split; [exact V5|].
+  eapply genv_rel_ext; [exact Xm35| |exact G3]. change (g_slots m5) with (g_slots m4). rewrite Hg4. reflexivity.
+Qed.
+
+(* ------------------------------------------------------------ the fragment, by induction *)
+Theorem compile_correct : (forall b, builtin_ok b) -> forall e, wf_expr e -> compile_ok e.
+Proof.
+  intros Hb. induction e as [c|d|c a b IHc IHa IHb|c a IHc IHa|x|x e IH|x e IH|f0 args IHf IHargs] using expr_ind2;
+    intros Hwf.
+  - apply cok_const. exact Hwf.
+  - apply cok_quote. exact Hwf.
+  - destruct Hwf as (Wc & Wa & Wb). apply cok_if; auto.
+  - destruct Hwf as (Wc & Wa). apply cok_if1; auto.
+  - apply cok_var. exact Hwf.
+  - apply cok_define; [exact Hwf|]. apply IH. apply Hwf.
+  - apply cok_set; [exact Hwf|]. apply IH. apply Hwf.
+  - pose proof Hwf as Hwf'. apply wf_app in Hwf' as (_ & Wf & Wargs).
+    apply cok_app; auto.
+    clear -IHargs Wargs. induction IHargs as [|x r Hx _ IH]; constructor; inversion Wargs; subst; auto.
+Qed.
+
+End Sem.
+
+(* the hypothesis on builtins is satisfiable for ANY table: with the empty specification
+   (no builtin has a specified result) every builtin is ok; it is proved for a real
+   builtin below *)
+Lemma builtin_ok_unspecified ob b : builtin_ok ob (fun _ _ => None) b.
+Proof. intros m sp0 vs rs r _ _ _ _ _ H. discriminate. Qed.
+
+Print Assumptions compile_correct.
